@@ -95,6 +95,10 @@ type drNet struct {
 	smu   sync.Mutex
 	sched *drSched
 	stats map[string]int
+	// synchrony monitors of the running epoch
+	maxDeliveryLag time.Duration // longest time a delivery took beyond its scheduled instant
+	maxSchedLag    time.Duration // longest oversleep of a 5 ms watchdog tick (CPU starvation)
+	kickoffAt      time.Time
 	// last completed reshare (for handover / vgt)
 	lastOld map[int]*dkg.DBState
 }
@@ -107,6 +111,14 @@ type drClient struct {
 func (c *drNet) count(k string) {
 	c.smu.Lock()
 	c.stats[k]++
+	c.smu.Unlock()
+}
+
+func (c *drNet) lag(d time.Duration) {
+	c.smu.Lock()
+	if d > c.maxDeliveryLag {
+		c.maxDeliveryLag = d
+	}
 	c.smu.Unlock()
 }
 
@@ -129,6 +141,9 @@ func (c *drClient) Packet(ctx context.Context, p net.Peer, packet *pdkg.GossipPa
 		return &pdkg.EmptyDKGResponse{}, nil
 	}
 	if ex := packet.GetExecute(); ex != nil {
+		c.n.smu.Lock()
+		c.n.kickoffAt = ex.GetTime().AsTime()
+		c.n.smu.Unlock()
 		t.mu.Lock()
 		if k := ex.GetTime().AsTime(); k.After(t.lowerAt) {
 			t.lowerAt = k
@@ -156,7 +171,10 @@ func (c *drClient) BroadcastDKG(ctx context.Context, p net.Peer, in *pdkg.DKGPac
 	s := c.n.sched
 	c.n.smu.Unlock()
 	if s == nil {
-		return t.proc.BroadcastDKG(ctx, in)
+		t0 := time.Now()
+		r, err := t.proc.BroadcastDKG(ctx, in)
+		c.n.lag(time.Since(t0))
+		return r, err
 	}
 	if s.down[t.i] || s.down[c.from] {
 		c.n.count("bundle-dropped")
@@ -190,6 +208,7 @@ func (c *drClient) BroadcastDKG(ctx context.Context, p net.Peer, in *pdkg.DKGPac
 		}
 		cp := proto.Clone(in).(*pdkg.DKGPacket)
 		c.n.count("bundle")
+		t0 := time.Now()
 		go func() {
 			if !release.IsZero() {
 				if d := time.Until(release); d > 0 {
@@ -205,6 +224,11 @@ func (c *drClient) BroadcastDKG(ctx context.Context, p net.Peer, in *pdkg.DKGPac
 				time.Sleep(w)
 			}
 			_, _ = t.proc.BroadcastDKG(context.Background(), cp)
+			due := t0.Add(w)
+			if !release.IsZero() && release.Add(w).After(due) {
+				due = release.Add(w)
+			}
+			c.n.lag(time.Since(due))
 		}()
 	}
 	return &pdkg.EmptyDKGResponse{}, nil
@@ -516,6 +540,12 @@ type epochResult struct {
 	Boundary int64             `json:"boundary"`
 	Tamper   []map[string]any  `json:"tamper,omitempty"`
 	WallMs   int64             `json:"wall_ms"`
+	// synchrony of the run: kyber's DKG assumes every bundle is delivered within the phase
+	KickoffMs        int64 `json:"kickoff_ms"`
+	PhaseMs          int64 `json:"phase_ms"`
+	MaxDeliveryLagMs int64 `json:"max_delivery_lag_ms"`
+	MaxSchedLagMs    int64 `json:"max_sched_lag_ms"`
+	Down             []int `json:"down"`
 }
 
 func (c *drNet) states(i int) (cur, fin *dkg.DBState) {
@@ -546,7 +576,27 @@ func (c *drNet) runEpoch(op string, kv map[string]string) any {
 	c.smu.Lock()
 	c.stats = map[string]int{}
 	c.sched = nil
+	c.maxDeliveryLag, c.maxSchedLag, c.kickoffAt = 0, 0, time.Time{}
 	c.smu.Unlock()
+	stopWatch := make(chan struct{})
+	go func() {
+		for {
+			t := time.Now()
+			select {
+			case <-stopWatch:
+				return
+			case <-time.After(5 * time.Millisecond):
+			}
+			if over := time.Since(t) - 5*time.Millisecond; over > 0 {
+				c.smu.Lock()
+				if over > c.maxSchedLag {
+					c.maxSchedLag = over
+				}
+				c.smu.Unlock()
+			}
+		}
+	}()
+	defer close(stopWatch)
 	var members, joiners, remainers, leavers []int
 	var epoch uint32
 	var genesis, periodSec int64
@@ -646,6 +696,11 @@ func (c *drNet) runEpoch(op string, kv map[string]string) any {
 				c.nodes[leader].lowerAt = time.Now().Add(c.kickoff - 50*time.Millisecond)
 			}
 			c.nodes[leader].mu.Unlock()
+			c.smu.Lock()
+			if c.kickoffAt.IsZero() {
+				c.kickoffAt = time.Now().Add(c.kickoff)
+			}
+			c.smu.Unlock()
 			deadline := time.Now().Add(c.kickoff + 4*c.phase + 4*time.Second)
 			if !sched.boundary.IsZero() && sched.boundary.Add(3*time.Second).After(deadline) {
 				deadline = sched.boundary.Add(3*time.Second + 2*c.phase)
@@ -676,7 +731,16 @@ func (c *drNet) runEpoch(op string, kv map[string]string) any {
 	c.smu.Lock()
 	c.sched = nil
 	res.Stats = c.stats
+	res.MaxDeliveryLagMs, res.MaxSchedLagMs, res.PhaseMs = c.maxDeliveryLag.Milliseconds(), c.maxSchedLag.Milliseconds(), c.phase.Milliseconds()
+	if !c.kickoffAt.IsZero() {
+		res.KickoffMs = c.kickoffAt.UnixMilli()
+	}
 	c.smu.Unlock()
+	res.Down = []int{}
+	for d := range sched.down {
+		res.Down = append(res.Down, d)
+	}
+	sort.Ints(res.Down)
 	// dump
 	fins := map[int]*dkg.DBState{}
 	for _, n := range c.nodes {
